@@ -15,11 +15,11 @@ import coqlit as L
 
 ID = "C20"
 COQ_PROPERTY_FILE = "Properties/C20.v"
-COQ_DEPS = ["Common/ListX.v", "Common/ObsHash.v", "Model/Viz.v", "Proofs/VizProofs.v"]
+COQ_DEPS = ["Common/ListX.v", "Common/ObsHash.v", "Generated/Tables.v", "Model/Viz.v", "Proofs/VizProofs.v"]
 COQ_IMPORTS = "From Mesa Require Import Model.Viz."
 COQ_CASE_TYPE = "case"
 COQ_RUN = "run_case"
-TABLE_CONSTRUCTS = []
+TABLE_CONSTRUCTS = ["viz_collect_defaults", "viz_size_base", "viz_hex_parity"]
 RULE = ("histories = one space (SingleGrid, MultiGrid, HexSingleGrid, HexMultiGrid, OrthogonalMooreGrid, "
         "OrthogonalVonNeumannGrid, HexGrid, NetworkGrid, Network, legacy and experimental ContinuousSpace, VoronoiGrid; "
         "w,h <= 5) + a portrayal table over the keys size/color/marker/zorder (each optional, per agent kind) + "
@@ -31,6 +31,7 @@ RULE = ("histories = one space (SingleGrid, MultiGrid, HexSingleGrid, HexMultiGr
 TRUSTED_BASE = [
     "Coq 8.16.1 kernel (coqc); vm_compute used for the non-vacuity examples and for evaluating the model in the correspondence",
     "no axioms: Print Assumptions reports 'Closed under the global context' for every C20 theorem",
+    "harness/tables/viz.py (T1) re-extracting the defaults of collect_agent_data, the 180 of s_default and the two hex parity constants",
     "harness/props/C20.py driver+observer (reads ax.collections / ax.images / chart.data.values back and decodes "
     "offsets, sizes, colours, marker paths to integers) and the Gallina literal printer (T2, differential testing, not a proof)",
     "Model/Viz.v is a hand transcription of collect_agent_data, _scatter, the hex centre formula, _get_hexmesh centres, "
